@@ -19,7 +19,8 @@ EXPLANATION = (
     " (table checked under C19.R1). 'Accepted iff legal' as such is NOT decided (C01, C13). R1/R3 accept the first-match search as "
     'Iterator::find, as a helper function written as a first-match loop (finder summary), or as a for loop of the entry point itself '
     '(non-matching iterations without effects, exhaustion = Err(InvalidMove)). R2: apply_chess_move applies its own parameter; (R6) '
-    'imports all clauses of C01; (R7) imports the label rules of C13.'
+    'imports all clauses of C01; (R7) imports the label rules of C13. R4: the coordinate pattern may carry a third, optional group '
+    'naming the promotion piece (exactly q r b n).'
 )
 ASSUMPTIONS = [
     "a pawn move that does not capture is never ambiguous (two pawns of one colour reach the same square only by capturing)",
@@ -364,7 +365,11 @@ def r4_input_language(ctx):
     wit2 = rx.witness_intersection(w_ast, c_ast)
     ctx.ob(rule, IH, 'no label is mistaken for a coordinate pair', wit2 is None, found={'pattern': coord[0], 'ambiguous input': wit2}, expected='L(writer) ∩ L(coordinate) = ∅')
     ctx.ob(rule, IH, 'the group handed to the game is the whole label', a_whole, found=alg[0], expected='^( whole label )$')
-    ctx.ob(rule, IH, 'coordinate pattern has two square groups', c_groups == 2 and rx.matches(c_ast, 'e2e4') and not rx.matches(c_ast, 'e2e9'), found=coord[0], nontrivial=False)
+    # two square groups; a third, optional group may name the promotion piece (one of q r b n) and nothing else
+    third_ok = c_groups == 2 or (c_groups == 3 and rx.matches(c_ast, 'e7e8q') and rx.matches(c_ast, 'e7e8n') and not rx.matches(c_ast, 'e7e8k')
+                                 and not rx.matches(c_ast, 'e7e8p') and not rx.matches(c_ast, 'e7e8qq') and not rx.matches(c_ast, 'e7e8e8'))
+    ctx.ob(rule, IH, 'coordinate pattern has two square groups', third_ok and rx.matches(c_ast, 'e2e4') and not rx.matches(c_ast, 'e2e9') and not rx.matches(c_ast, 'e2'),
+           found=coord[0], nontrivial=False)
     # order of the two tests: coordinates first, then notation
     outs = Engine(facts, inline_filter=lambda n, c: False, max_paths=4000).run(IH)
     order_ok = True
